@@ -461,7 +461,21 @@ def gen_filter(rng):
     return ",".join(f"{a}:{gen_rx(rng, a)}" for a in attrs)
 
 
-def gen_limit(rng):
+def gen_limit(rng, evs=None):
+    lim = _gen_limit(rng)
+    if evs and rng.random() < 0.4:
+        # window bounds that ARE boundaries of slices of this stream (a slice that ends exactly at ts_start or starts
+        # exactly at ts_end intersects the window), on the 1/16 us grid: not 3-decimal numbers
+        xs = [e for e in evs if e.get("ph") == "X" and isinstance(e.get("dur"), (int, float))]
+        if xs and rng.random() < 0.7:
+            e = rng.choice(xs)
+            lim["ts_start"] = e["ts"] + e["dur"]
+        if xs and rng.random() < 0.7:
+            lim["ts_end"] = rng.choice(xs)["ts"]
+    return lim
+
+
+def _gen_limit(rng):
     lim = {}
     if rng.random() < 0.5:
         lim["skip"] = rng.choice([0, 1, 2, 3, 5])
@@ -521,8 +535,9 @@ def gen_stream(rng, n):
 def gen_random(ctx: Ctx):
     rng = ctx.rng
     for _ in range(ctx.n(1500, 25000)):
-        yield {"limit": gen_limit(rng) if rng.random() < 0.8 else {}, "filter": gen_filter(rng) if rng.random() < 0.7 else "",
-               "events": gen_stream(rng, rng.choice([0, 1, 2, 3, 5, 8, 14]))}
+        evs = gen_stream(rng, rng.choice([0, 1, 2, 3, 5, 8, 14]))
+        yield {"limit": gen_limit(rng, evs) if rng.random() < 0.8 else {}, "filter": gen_filter(rng) if rng.random() < 0.7 else "",
+               "events": evs}
 
 
 def gen_bad(ctx: Ctx):
@@ -642,7 +657,7 @@ def run(ctx: Ctx):
         evs = [e for e in gen_stream(rng, rng.choice([3, 6, 10])) if e["ph"] == "X"]
         t = 0.0
         for e in evs:       # strictly increasing ts => arrival order at normalize_phase1 is file order
-            t += rng.choice([0.5, 1, 2])
+            t += rng.choice([0.5, 1, 2, 0.1875, 0.0625])
             e["ts"] = t
             e["dur"] = max(e.get("dur", 1), 0.0625)
             if e["name"] == "DmaI":     # off-grammar for the FLEX classifier (C02 finding), not a C17 matter
@@ -655,7 +670,7 @@ def run(ctx: Ctx):
             split = [rng.randrange(nf) for _ in evs]
             for e, fi in zip(evs, split):
                 e["pid"] = evs[0]["pid"] + fi
-        case = {"limit": gen_limit(rng), "filter": gen_filter(rng) if rng.random() < 0.6 else "", "events": evs}
+        case = {"limit": gen_limit(rng, evs), "filter": gen_filter(rng) if rng.random() < 0.6 else "", "events": evs}
         if split:
             case["split"] = split
         if rng.random() < 0.25:
